@@ -865,7 +865,7 @@ func childMain() {
 			independentInstances(kind, w, d)
 			rr := 2500
 			if thorough {
-				rr = 40000
+				rr = 12000
 			}
 			racingAdds(kind, w, rr)
 		}
